@@ -111,16 +111,14 @@ def kernel(case):
     args = kernel_inputs()
     x, y, values, xmin, xmax, nx, ymin, ymax, ny = args
     SPEC[0] = HistSpec(*args)
-    viol = []
-    snp.BOUNDS_HOOK[0] = lambda k, n: viol.append((k, n))
+    # in-bounds: every integer index used on an array lies inside the axis (numba does not check); proved where the
+    # access happens (the iteration's path is cut after the invariant check and never returns here)
+    snp.BOUNDS_HOOK[0] = A.inbounds_prover()
     try:
         with LC.on():
             out, counts = pu.hist2d(*args)
     finally:
         snp.BOUNDS_HOOK[0] = None
-    # in-bounds: every integer index used on an array lies inside the axis (numba does not check)
-    for j, (k, n) in enumerate(viol):
-        prove("inbounds[%d]" % j, (SV.lift(k) >= 0) & (SV.lift(k) < SV.lift(n)))
     # postcondition at loop exit (i == len(x)): the statement's counts and sums
     n = x.shape[0]
     iy = core.fresh_int("iy", 0)
